@@ -45,6 +45,7 @@ def check(res):
     last_struct_step = -10
     echo = 0
     overlapped = False
+    redo_mids = set()
     for e in v.evs:
         if e.kind == "call_begin" and e.d["api"] == "call":
             overlapped = False
@@ -67,12 +68,21 @@ def check(res):
         elif k == "doc" and d["name"] == "stop":
             monitored = False
             last_struct_step = e.step
+        elif k == "msg" and d["cmd"] == "_start_suspender" and d["mid"] in redo_mids:
+            redo_mids.discard(d["mid"])  # the second execution of a suspension that is already counted
         elif k == "msg" and d["cmd"] == "_start_suspender":
             suspended += 1
             if suspended > 1:
                 overlapped = True
         elif k == "cmd" and d["cmd"] == "_start_suspender" and d["end"] != "ok":
-            suspended = max(0, suspended - 1)
+            if d["end"] == "cancelled":
+                # cut short by another interruption after it had already removed the monitors; it is executed again
+                # (same Msg object): the suspension stays in effect, and two interruptions overlap (not asserted,
+                # see the module docstring)
+                overlapped = True
+                redo_mids.add(d["mid"])
+            else:
+                suspended = max(0, suspended - 1)
         elif k == "msg" and d["cmd"] == "_resume_from_suspender":
             suspended = max(0, suspended - 1)
         elif k == "dev" and d["dev"] == sig and d["method"] == "put":
